@@ -1,7 +1,7 @@
 """C04 — sequence elements exactly once / stable order: origin capture, monotone tombstones,
 integration inserts never moves, list-pointer ownership, split chaining."""
 from ylib import facts as F
-from . import c03
+from . import c01, c03
 from .common import *  # noqa
 from . import shared
 
@@ -285,4 +285,5 @@ def check(ctx, R):
     R.run("C04.e", rule_e, ctx)
     R.run("C04.f", lambda R, c: shared.idempotent_delete(R, c, "C04.f"), ctx)
     R.run("C04.g", lambda R, c: c03.rule_b(R, c, "C04.g"), ctx)
+    R.run("C04.h", lambda R, c: c01.rule_f(R, c, "C04.h"), ctx)
     return {}
